@@ -205,6 +205,10 @@ type c13Case struct {
 	Path      string `json:"path,omitempty"`
 	Op        string `json:"op,omitempty"`
 	Observed  string `json:"observed,omitempty"`
+	// concurrent configurations (c13_conc.go)
+	Mode       string `json:"mode,omitempty"`
+	Goroutines int    `json:"goroutines,omitempty"`
+	Iter       int    `json:"iterations,omitempty"`
 }
 
 func (c *ctx) c13ModelErr(op string, err error, rp c13Case) {
@@ -909,7 +913,8 @@ func (c *ctx) c13OutcomeNotes() {
 func runC13(c *ctx) {
 	c.res.Rule = "pure helpers: boundary + random bit matrices / GF(2^128) vectors / scalars on the lattice {0,1,2,q-1,q-2,2^k,random}; " +
 		"real OT runs: batch sizes x choice patterns (all-0, all-1, alternating, random) x nonces on shared setups; " +
-		"alterations: one field of one message per run; non-trivial = input not all zero; distinct by printed parameters"
+		"alterations: one field of one message per run; concurrent: G goroutines x k honest multiplications over one shared setup / over " +
+		"their own setups, Doerner signing sessions side by side; non-trivial = input not all zero; distinct by printed parameters"
 	old := crand.Reader
 	rd := &c13Reader{}
 	rd.seed(c.res.Rng.Int63())
@@ -981,4 +986,6 @@ func runC13(c *ctx) {
 		e.alterAll(r, s)
 	}
 	c.c13SetupAlterAll(rd, r, pick(1, 4))
+	// executions overlapping in one process (c13_conc.go)
+	c.c13ConcAll(rd, r)
 }
